@@ -14,8 +14,15 @@
 //	         | (special tofile|todir|dangling|fifo <has-mime 0|1>)   a symbolic link or FIFO: the server lists it like a file
 //	<hier>   = (h (ps...) <prefix-trailing-slash> <user> <uslash> <home> <hslash> (c <name> <slash> n d m (o <name> l t e)...)...)
 //	<target> = (segs (rs...) <trailing 0|1>) | (path <path>)
-//	<req>    = (req absent|0|1|inf|bad none|xml|xml2|other <body> [<delivery>])
-//	<delivery> = exact (default) | unknown | larger | smaller | nobody | chunked   how the body reaches the handler
+//	(hseq cal|card (hstep <hier> <target> <req>)...)                       <obs of the LAST step>
+//	    ONE shared Handler over a multi-user backend (each step's user = its <hier>, carried in the
+//	    request context); a line per prefix of a sequence; the last step is judged on its own inputs
+//
+//	<req>    = (req <depth> <ctype> <body> [<delivery>])
+//	<depth>  = absent|0|1|inf|bad, optionally with a spelling tag after ':' (bad:case = "Infinity", 1:then0 = two header lines, ...)
+//	<ctype>  = none|xml|xml2|other, optionally with a spelling tag after ':' (xml:case = "Application/XML", ...); the class is
+//	           computed by the harness with the real mime.ParseMediaType
+//	<delivery> = exact (default) | unknown | larger | smaller | nobody | chunked | eofdata | onebyte | closefail   how the body reaches the handler
 //	<body>   = empty | blank | other | malformed | <pf>
 //	<pf>     = (pf <propname 0|1> <allprop 0|1> noprop|(prop (<ns> <local>)...))
 //	<val>    = n | (h <path>) | (r (<ns> <local>)...) | e | o
@@ -23,7 +30,6 @@
 package main
 
 import (
-	"bufio"
 	"bytes"
 	"context"
 	"encoding/xml"
@@ -32,13 +38,13 @@ import (
 	"fmt"
 	"io"
 	"mime"
-	"net"
 	"net/http"
 	"net/http/httptest"
 	"net/url"
 	"os"
 	"path"
 	"path/filepath"
+	"reflect"
 	"runtime"
 	"sort"
 	"strconv"
@@ -46,6 +52,7 @@ import (
 	"sync"
 	"sync/atomic"
 	"syscall"
+	"testing/iotest"
 	"time"
 
 	"github.com/emersion/go-ical"
@@ -399,7 +406,56 @@ func bodyText(q reqDesc) string {
 	return ""
 }
 
+// spelled header values: tag -> the text(s) put into the header
+var depthSpellings = map[string][]string{
+	"case": {"Infinity"}, "upper": {"INFINITY"}, "pad": {"01"}, "sign": {"+1"}, "lblank": {" 1"}, "rblank": {"0 "},
+	"list": {"0, 1"}, "word": {"one"}, "neg": {"-1"}, "then0": {"1", "0"}, "theninf": {"0", "infinity"},
+	"emptythen1": {"", "1"}, "badthen1": {"2", "1"},
+}
+var ctypeSpellings = map[string][]string{
+	"case": {"Application/XML"}, "upper": {"TEXT/XML"}, "param": {"application/xml;charset=utf-8"},
+	"blank": {" application/xml "}, "badparam": {"application/xml; charset"}, "quoted": {`text/xml; charset="UTF-8"; x=y`},
+	"list": {"application/xml, text/plain"}, "empty": {""}, "suffix": {"application/xml+dav"}, "sub": {"application/xmlx"},
+	"thenxml": {"text/plain", "application/xml"}, "thenplain": {"application/xml", "text/plain"}, "slash": {"application/"},
+}
+
+func spellTag(atom string) (class, tag string) {
+	if i := strings.IndexByte(atom, ':'); i >= 0 {
+		return atom[:i], atom[i+1:]
+	}
+	return atom, ""
+}
+
+// depthClass: what handlePropfind makes of the header lines (r.Header.Get = the first line)
+func depthClass(vals []string) string {
+	switch vals[0] {
+	case "":
+		return "absent"
+	case "0", "1":
+		return vals[0]
+	case "infinity":
+		return "inf"
+	}
+	return "bad"
+}
+
+// ctypeClass: isContentXML with the real mime.ParseMediaType
+func ctypeClass(vals []string) string {
+	t, _, _ := mime.ParseMediaType(vals[0])
+	if t == "application/xml" || t == "text/xml" {
+		return "xml"
+	}
+	return "other"
+}
+
+func setSpelled(h http.Header, key string, vals []string) {
+	h[key] = append([]string{}, vals...)
+}
+
 func contentType(q reqDesc) string {
+	if _, tag := spellTag(q.ct); tag != "" {
+		return ctypeSpellings[tag][0]
+	}
 	switch q.ct {
 	case "xml":
 		return "application/xml"
@@ -412,6 +468,9 @@ func contentType(q reqDesc) string {
 }
 
 func depthHeader(q reqDesc) string {
+	if _, tag := spellTag(q.dh); tag != "" {
+		return depthSpellings[tag][0]
+	}
 	switch q.dh {
 	case "0", "1":
 		return q.dh
@@ -444,42 +503,24 @@ func delivery(q reqDesc, body string) string {
 // chunked (an empty body is the terminating chunk alone), so that net/http's
 // server builds the *http.Request: ContentLength -1, a chunked body reader.
 func runChunked(h http.Handler, p string, q reqDesc, body string) string {
-	ts := httptest.NewServer(h)
-	defer ts.Close()
-	conn, err := net.Dial("tcp", ts.Listener.Addr().String())
-	if err != nil {
-		return hx.L("harness-dial-failed")
-	}
-	defer conn.Close()
-	conn.SetDeadline(time.Now().Add(20 * time.Second))
-	var sb strings.Builder
-	fmt.Fprintf(&sb, "PROPFIND %s HTTP/1.1\r\nHost: example.org\r\nConnection: close\r\nTransfer-Encoding: chunked\r\n", escaped(p))
+	header := http.Header{}
 	if ct := contentType(q); ct != "" {
-		fmt.Fprintf(&sb, "Content-Type: %s\r\n", ct)
+		header.Set("Content-Type", ct)
 	}
 	if d := depthHeader(q); d != "" {
-		fmt.Fprintf(&sb, "Depth: %s\r\n", d)
+		header.Set("Depth", d)
 	}
-	sb.WriteString("\r\n")
-	// two chunks when there is something to split, then the terminating chunk
-	if len(body) > 1 {
-		k := len(body) / 2
-		fmt.Fprintf(&sb, "%x\r\n%s\r\n%x\r\n%s\r\n", k, body[:k], len(body)-k, body[k:])
-	} else if len(body) == 1 {
-		fmt.Fprintf(&sb, "1\r\n%s\r\n", body)
+	code, _, data, ok := hx.ChunkedDo(h, "PROPFIND", escaped(p), header, body)
+	if !ok {
+		return hx.L("harness-chunked-failed")
 	}
-	sb.WriteString("0\r\n\r\n")
-	if _, err := io.WriteString(conn, sb.String()); err != nil {
-		return hx.L("harness-write-failed")
-	}
-	resp, err := http.ReadResponse(bufio.NewReader(conn), nil)
-	if err != nil {
-		return hx.L("harness-no-response")
-	}
-	defer resp.Body.Close()
-	data, _ := io.ReadAll(resp.Body)
-	return reduceBody(resp.StatusCode, data)
+	return reduceBody(code, data)
 }
+
+// closeFails: every Read succeeds, Close reports an error
+type closeFails struct{ io.Reader }
+
+func (closeFails) Close() error { return errors.New("close failed") }
 
 func buildRequest(p string, q reqDesc) *http.Request {
 	body := bodyText(q)
@@ -494,7 +535,24 @@ func buildRequest(p string, q reqDesc) *http.Request {
 	if d := depthHeader(q); d != "" {
 		req.Header.Set("Depth", d)
 	}
+	// spelled values: exactly these header lines (several lines, blanks, an empty line)
+	if _, tag := spellTag(q.ct); tag != "" {
+		setSpelled(req.Header, "Content-Type", ctypeSpellings[tag])
+	}
+	if _, tag := spellTag(q.dh); tag != "" {
+		setSpelled(req.Header, "Depth", depthSpellings[tag])
+	}
 	switch delivery(q, body) {
+	case "eofdata":
+		// the last bytes arrive together with io.EOF
+		req.Body = io.NopCloser(iotest.DataErrReader(strings.NewReader(body)))
+		req.ContentLength = -1
+	case "onebyte":
+		req.Body = io.NopCloser(iotest.OneByteReader(strings.NewReader(body)))
+		req.ContentLength = -1
+	case "closefail":
+		req.Body = closeFails{strings.NewReader(body)}
+		req.ContentLength = int64(len(body))
 	case "unknown":
 		req.Body = io.NopCloser(struct{ io.Reader }{strings.NewReader(body)})
 		req.ContentLength = -1
@@ -713,11 +771,32 @@ func davGroup(tree *tnode, cases [][2]string, put func(string)) {
 		os.RemoveAll(root)
 		os.RemoveAll(root + ".outside")
 	}()
-	h := &webdav.Handler{FileSystem: webdav.LocalFileSystem(root)}
-	for _, c := range cases {
+	// the served directory written in unclean but equivalent ways
+	seq := atomic.AddInt64(&davGroupSeq, 1)
+	spelled := []string{root, root + "/", root + "/.", filepath.Dir(root) + "/./" + filepath.Base(root), filepath.Dir(root) + "//" + filepath.Base(root) + "//"}[seq%5]
+	h := &webdav.Handler{FileSystem: webdav.LocalFileSystem(spelled)}
+	one := func(c [2]string) {
 		x := hx.MustParse(c[0])[0]
 		a := x.Args()
 		put(c[0] + " " + runHandler(h, parseTarget(a[1]).under(nil), parseReq(a[2])))
+	}
+	if seq%4 == 0 && len(cases) > 8 {
+		// overlapping requests on the one Handler: each answer is still judged on its own
+		var wg sync.WaitGroup
+		for k := 0; k < 4; k++ {
+			wg.Add(1)
+			go func(k int) {
+				defer wg.Done()
+				for i := k; i < len(cases); i += 4 {
+					one(cases[i])
+				}
+			}(k)
+		}
+		wg.Wait()
+		return
+	}
+	for _, c := range cases {
+		one(c)
 	}
 }
 
@@ -976,6 +1055,96 @@ func (b cardBackend) PutAddressObject(ctx context.Context, p string, card vcard.
 }
 func (b cardBackend) DeleteAddressObject(ctx context.Context, p string) error { return nil }
 
+// ctxCal / ctxCard: a multi-user backend; the user's hierarchy travels in the request context
+type hierKey struct{}
+
+func hierOf(ctx context.Context) *hier { return ctx.Value(hierKey{}).(*hier) }
+
+type ctxCal struct{}
+
+func (ctxCal) CurrentUserPrincipal(ctx context.Context) (string, error) {
+	return calBackend{hierOf(ctx)}.CurrentUserPrincipal(ctx)
+}
+func (ctxCal) CalendarHomeSetPath(ctx context.Context) (string, error) {
+	return calBackend{hierOf(ctx)}.CalendarHomeSetPath(ctx)
+}
+func (ctxCal) CreateCalendar(ctx context.Context, c *caldav.Calendar) error { return nil }
+func (ctxCal) ListCalendars(ctx context.Context) ([]caldav.Calendar, error) {
+	return calBackend{hierOf(ctx)}.ListCalendars(ctx)
+}
+func (ctxCal) GetCalendar(ctx context.Context, p string) (*caldav.Calendar, error) {
+	return calBackend{hierOf(ctx)}.GetCalendar(ctx, p)
+}
+func (ctxCal) GetCalendarObject(ctx context.Context, p string, req *caldav.CalendarCompRequest) (*caldav.CalendarObject, error) {
+	return calBackend{hierOf(ctx)}.GetCalendarObject(ctx, p, req)
+}
+func (ctxCal) ListCalendarObjects(ctx context.Context, p string, req *caldav.CalendarCompRequest) ([]caldav.CalendarObject, error) {
+	return calBackend{hierOf(ctx)}.ListCalendarObjects(ctx, p, req)
+}
+func (ctxCal) QueryCalendarObjects(ctx context.Context, p string, q *caldav.CalendarQuery) ([]caldav.CalendarObject, error) {
+	return nil, nil
+}
+func (ctxCal) PutCalendarObject(ctx context.Context, p string, cal *ical.Calendar, opts *caldav.PutCalendarObjectOptions) (*caldav.CalendarObject, error) {
+	return &caldav.CalendarObject{Path: p}, nil
+}
+func (ctxCal) DeleteCalendarObject(ctx context.Context, p string) error { return nil }
+
+type ctxCard struct{}
+
+func (ctxCard) CurrentUserPrincipal(ctx context.Context) (string, error) {
+	return cardBackend{hierOf(ctx)}.CurrentUserPrincipal(ctx)
+}
+func (ctxCard) AddressBookHomeSetPath(ctx context.Context) (string, error) {
+	return cardBackend{hierOf(ctx)}.AddressBookHomeSetPath(ctx)
+}
+func (ctxCard) ListAddressBooks(ctx context.Context) ([]carddav.AddressBook, error) {
+	return cardBackend{hierOf(ctx)}.ListAddressBooks(ctx)
+}
+func (ctxCard) GetAddressBook(ctx context.Context, p string) (*carddav.AddressBook, error) {
+	return cardBackend{hierOf(ctx)}.GetAddressBook(ctx, p)
+}
+func (ctxCard) CreateAddressBook(ctx context.Context, ab *carddav.AddressBook) error { return nil }
+func (ctxCard) DeleteAddressBook(ctx context.Context, p string) error                { return nil }
+func (ctxCard) GetAddressObject(ctx context.Context, p string, req *carddav.AddressDataRequest) (*carddav.AddressObject, error) {
+	return cardBackend{hierOf(ctx)}.GetAddressObject(ctx, p, req)
+}
+func (ctxCard) ListAddressObjects(ctx context.Context, p string, req *carddav.AddressDataRequest) ([]carddav.AddressObject, error) {
+	return cardBackend{hierOf(ctx)}.ListAddressObjects(ctx, p, req)
+}
+func (ctxCard) QueryAddressObjects(ctx context.Context, p string, q *carddav.AddressBookQuery) ([]carddav.AddressObject, error) {
+	return nil, nil
+}
+func (ctxCard) PutAddressObject(ctx context.Context, p string, card vcard.Card, opts *carddav.PutAddressObjectOptions) (*carddav.AddressObject, error) {
+	return &carddav.AddressObject{Path: p}, nil
+}
+func (ctxCard) DeleteAddressObject(ctx context.Context, p string) error { return nil }
+
+// execHseq: the steps are served one after the other by ONE Handler (Prefix of the
+// first step); each request carries its user's hierarchy; the last answer is reported.
+func execHseq(x hx.Sx) (obs string) {
+	a := x.Args()
+	srv := a[0].Atom
+	var hd http.Handler
+	for i, st := range a[1:] {
+		sa := st.Args()
+		h, t, q := parseHier(sa[0]), parseTarget(sa[1]), parseReq(sa[2])
+		if i == 0 {
+			hprefix := join(h.ps) + tslash(h.ptrail)
+			if srv == "cal" {
+				hd = &caldav.Handler{Backend: ctxCal{}, Prefix: hprefix}
+			} else {
+				hd = &carddav.Handler{Backend: ctxCard{}, Prefix: hprefix}
+			}
+		}
+		user := h
+		shared := hd
+		obs = runHandler(http.HandlerFunc(func(w http.ResponseWriter, r *http.Request) {
+			shared.ServeHTTP(w, r.WithContext(context.WithValue(r.Context(), hierKey{}, user)))
+		}), t.under(h.ps), q)
+	}
+	return obs
+}
+
 func execHier(x hx.Sx) string {
 	a := x.Args()
 	srv, h, t, q := a[0].Atom, parseHier(a[1]), parseTarget(a[2]), parseReq(a[3])
@@ -1098,13 +1267,26 @@ func execNr(x hx.Sx) (obs string) {
 		}
 		props[key] = verifhook.PropFindValue(ev)
 	}
-	resp, err := verifhook.NewPropFindResponse(p, toInternalPropFind(pf), props)
+	ipf := toInternalPropFind(pf)
+	resp, err := verifhook.NewPropFindResponse(p, ipf, props)
 	if err != nil {
 		return hx.L("err", hx.I(int64(verifhook.HTTPErrorFromError(err).Code)))
 	}
 	data, err := xml.Marshal(resp)
 	if err != nil {
 		return hx.L("marshal-error")
+	}
+	// the same request VALUE serves a second resource with other properties: the
+	// request must come back unchanged, and the first response must not change
+	other := map[xml.Name]verifhook.PropFindFunc{
+		{Space: nsDAV, Local: "getetag"}: verifhook.PropFindValue(&elemValue{name: pname{nsDAV, "getetag"}, kind: "o"}),
+	}
+	verifhook.NewPropFindResponse(p+"/second", ipf, other)
+	if !reflect.DeepEqual(ipf, toInternalPropFind(pf)) {
+		return hx.L("modified-its-argument")
+	}
+	if again, err := xml.Marshal(resp); err != nil || !bytes.Equal(again, data) {
+		return hx.L("result-changed-by-a-later-call")
 	}
 	root, err := strictParse(data)
 	if err != nil || root.name != (pname{nsDAV, "response"}) {
@@ -1113,9 +1295,17 @@ func execNr(x hx.Sx) (obs string) {
 	return reduceResponse(root)
 }
 
-func exec(in string) string {
+func exec(in string) (line string) {
 	x := hx.MustParse(in)[0]
+	// every call into /repo runs under recover in the goroutine that makes it
+	defer func() {
+		if r := recover(); r != nil {
+			line = in + " " + hx.L("panic")
+		}
+	}()
 	switch x.Head() {
+	case "hseq":
+		return in + " " + execHseq(x)
 	case "nr":
 		return in + " " + execNr(x)
 	case "hier":
@@ -1232,17 +1422,26 @@ func deliveryBodies(u []pname) []reqDesc {
 		reqDesc{ct: "other", body: "pf", pf: pfReq{allprop: true}, dl: "chunked"},
 		reqDesc{ct: "xml", body: "malformed", dl: "chunked"},
 		reqDesc{ct: "xml", body: "other", dl: "unknown"},
+		// data together with io.EOF, one byte per Read, a Close that fails
+		reqDesc{ct: "none", body: "empty", dl: "eofdata"},
+		reqDesc{ct: "xml", body: "empty", dl: "onebyte"},
+		reqDesc{ct: "other", body: "empty", dl: "closefail"},
+		reqDesc{ct: "none", body: "blank", dl: "eofdata"},
+		reqDesc{ct: "xml", body: "pf", pf: pfReq{hasProp: true, prop: u[:5]}, dl: "eofdata"},
+		reqDesc{ct: "xml", body: "pf", pf: pfReq{hasProp: true, prop: u[3:]}, dl: "onebyte"},
+		reqDesc{ct: "xml", body: "pf", pf: pfReq{allprop: true}, dl: "closefail"},
+		reqDesc{ct: "xml", body: "pf", pf: pfReq{propname: true}, dl: "eofdata"},
 	)
 	return out
 }
 
 // tailBodies: how many entries at the end of bodies() are not plain prop requests
-const tailBodies = 16 + 9 + 16
+const tailBodies = 16 + 9 + 16 + 8
 
 // a few representative bodies, for the sweep over all backends
 func fewBodies(srv string) []reqDesc {
 	u := universe(srv)
-	return []reqDesc{
+	few := []reqDesc{
 		{ct: "xml", body: "pf", pf: pfReq{hasProp: true, prop: u}},
 		{ct: "xml", body: "pf", pf: pfReq{hasProp: true, prop: []pname{u[0], u[4], u[0], u[6], noNamespace}}},
 		{ct: "xml", body: "pf", pf: pfReq{hasProp: true}},
@@ -1252,9 +1451,16 @@ func fewBodies(srv string) []reqDesc {
 		{ct: "none", body: "empty"},
 		{ct: "xml", body: "empty"},
 		{ct: "none", body: "empty", dl: "unknown"},
-		{ct: "other", body: "empty", dl: "chunked"},
-		{ct: "xml", body: "pf", pf: pfReq{hasProp: true, prop: u[:4]}, dl: "chunked"},
 	}
+	if hx.Tier() == "thorough" {
+		// a real server per request is costly: in the quick tier the chunked forms run with
+		// the full body list (one tree and one hierarchy per server, and the principal helper)
+		few = append(few, reqDesc{ct: "other", body: "empty", dl: "chunked"},
+			reqDesc{ct: "xml", body: "pf", pf: pfReq{hasProp: true, prop: u[:4]}, dl: "chunked"})
+	} else {
+		few = append(few, reqDesc{ct: "other", body: "empty", dl: "eofdata"})
+	}
+	return few
 }
 
 var depths = []string{"absent", "0", "1", "inf"}
@@ -1370,6 +1576,8 @@ type davJob struct {
 	tree  *tnode
 	cases [][2]string
 }
+
+var davGroupSeq int64
 
 // trees with entries that are not regular files: symbolic links (to a file, to a
 // directory, dangling) and a FIFO.  filepath.Walk does not follow links: the
@@ -1584,6 +1792,159 @@ func genHier(emit func(string)) {
 	}
 }
 
+// header spellings: every Depth and Content-Type spelling on the three servers and the principal helper
+func spelledRequests(srv string) []reqDesc {
+	u := universe(srv)
+	var out []reqDesc
+	for tag, vals := range depthSpellings {
+		dh := depthClass(vals) + ":" + tag
+		out = append(out, reqDesc{dh: dh, ct: "xml", body: "pf", pf: pfReq{hasProp: true, prop: u[:3]}},
+			reqDesc{dh: dh, ct: "none", body: "empty"})
+	}
+	for tag, vals := range ctypeSpellings {
+		ct := ctypeClass(vals) + ":" + tag
+		for _, d := range []string{"0", "1"} {
+			out = append(out, reqDesc{dh: d, ct: ct, body: "pf", pf: pfReq{hasProp: true, prop: u[1:4]}},
+				reqDesc{dh: d, ct: ct, body: "pf", pf: pfReq{allprop: true}},
+				reqDesc{dh: d, ct: ct, body: "pf", pf: pfReq{}},
+				reqDesc{dh: d, ct: ct, body: "empty"},
+				reqDesc{dh: d, ct: ct, body: "blank"},
+				reqDesc{dh: d, ct: ct, body: "empty", dl: "unknown"})
+		}
+	}
+	sort.Slice(out, func(i, j int) bool { return reqSx(out[i]) < reqSx(out[j]) })
+	return out
+}
+
+func genSpellings(emit func(string), jobs chan<- davJob) {
+	tree := davTree(2, 2, false)
+	job := davJob{tree: tree}
+	for _, q := range spelledRequests("dav") {
+		for _, t := range []target{{rs: nil}, {rs: []string{"d1"}}, {rs: []string{"d1", "f1.html"}}} {
+			job.cases = append(job.cases, [2]string{hx.L("dav", treeSx(tree), targetSx(t), reqSx(q)), ""})
+		}
+	}
+	jobs <- job
+	for _, srv := range []string{"cal", "card"} {
+		h := mkHier([]string{"dav"}, 2, 2, false, 3)
+		for _, q := range spelledRequests(srv) {
+			for _, t := range []target{{rs: []string{h.user}}, {rs: []string{h.user, h.home}, trailing: true}} {
+				emit(hx.L("hier", srv, hierSx(h), targetSx(t), reqSx(q)))
+			}
+		}
+	}
+	hs := hx.L("hs", hx.L(hx.S(nsCal), hx.S("calendar-home-set"), hx.S("/u/cal/")))
+	for _, q := range spelledRequests("principal") {
+		emit(hx.L("principal", hx.S("/u/"), hs, hx.S("/u/"), reqSx(q)))
+	}
+}
+
+// sizes: request bodies, names and answers around the buffer sizes of net/http,
+// bufio and encoding/xml (512, 4096, 32 KiB, 64 KiB)
+func genSizes(emit func(string), jobs chan<- davJob) {
+	long := func(n int) string { return "p" + strings.Repeat("x", n-1) }
+	var reqs []reqDesc
+	for _, n := range []int{511, 512, 1024, 4095, 4096, 4097} {
+		reqs = append(reqs, reqDesc{dh: "0", ct: "xml", body: "pf", pf: pfReq{hasProp: true,
+			prop: []pname{{nsDAV, "getetag"}, {nsDAV, long(n)}, {"urn:example:" + long(n), "color"}, {nsDAV, "resourcetype"}}}})
+	}
+	counts := []int{200, 700}
+	if hx.Tier() == "thorough" {
+		reqs = append(reqs, reqDesc{dh: "0", ct: "xml", body: "pf", pf: pfReq{hasProp: true,
+			prop: []pname{{nsDAV, long(32767)}, {nsDAV, long(32768)}, {nsDAV, long(65537)}}}})
+		counts = append(counts, 1500)
+	}
+	for _, c := range counts {
+		// many names (a body of several buffers), each once, one of them twice
+		var names []pname
+		for i := 0; i < c; i++ {
+			names = append(names, pname{nsDAV, fmt.Sprintf("prop-%04d", i)})
+		}
+		names = append(names, pname{nsDAV, "getetag"}, names[c/2])
+		for _, dl := range []string{"", "chunked", "onebyte"} {
+			reqs = append(reqs, reqDesc{dh: "1", ct: "xml", body: "pf", pf: pfReq{hasProp: true, prop: names}, dl: dl})
+		}
+	}
+	tree := davTree(2, 2, false)
+	job := davJob{tree: tree}
+	for _, q := range reqs {
+		job.cases = append(job.cases, [2]string{hx.L("dav", treeSx(tree), targetSx(target{rs: []string{"d1"}}), reqSx(q)), ""})
+	}
+	// many siblings: a directory of 1100 files, Depth 1 and infinity
+	var fn []string
+	var fc []*tnode
+	for i := 0; i < 1100; i++ {
+		fn = append(fn, fmt.Sprintf("f%04d.txt", i))
+		fc = append(fc, mkFile("x.txt"))
+	}
+	big := mkDir([]string{"many", "z"}, []*tnode{mkDir(fn, fc), mkFile("z")})
+	bj := davJob{tree: big}
+	for _, d := range []string{"1", "inf"} {
+		q := reqDesc{dh: d, ct: "xml", body: "pf", pf: pfReq{hasProp: true, prop: []pname{{nsDAV, "getetag"}, {nsDAV, "nope"}}}}
+		for _, t := range []target{{rs: []string{"many"}}, {rs: nil}} {
+			bj.cases = append(bj.cases, [2]string{hx.L("dav", treeSx(big), targetSx(t), reqSx(q)), ""})
+		}
+	}
+	jobs <- job
+	jobs <- bj
+	for _, srv := range []string{"cal", "card"} {
+		h := mkHier(nil, 1, 1, false, 0)
+		for _, q := range reqs {
+			emit(hx.L("hier", srv, hierSx(h), targetSx(target{rs: []string{h.user, h.home}}), reqSx(q)))
+		}
+	}
+}
+
+// histories: two users behind ONE shared Handler, alice then bob then alice
+func genHseq(emit func(string)) {
+	thorough := hx.Tier() == "thorough"
+	for _, srv := range []string{"cal", "card"} {
+		u := universe(srv)
+		bodies := []reqDesc{
+			{ct: "xml", body: "pf", pf: pfReq{hasProp: true, prop: u[:4]}},
+			{ct: "xml", body: "pf", pf: pfReq{allprop: true}},
+		}
+		for pi, ps := range [][]string{{}, {"dav"}, {"a b", "%41"}} {
+			if !thorough && pi == 2 {
+				continue
+			}
+			alice := mkHier(ps, 2, 2, false, pi)
+			alice.user, alice.home = "alice", "cal"
+			bob := mkHier(ps, 1, 1, false, pi)
+			bob.user, bob.home = "bob", "h"
+			bob.ptrail = alice.ptrail
+			shapes := func(me, ot *hier) []target {
+				ts := []target{{rs: nil}, {rs: []string{me.user}, trailing: true}, {rs: []string{me.user}},
+					{rs: []string{ot.user}, trailing: true}, {rs: []string{me.user, me.home}, trailing: true},
+					{rs: []string{ot.user, ot.home}}, {rs: []string{me.user, me.home, me.colls[0].name}},
+					{rs: []string{me.user, me.home, me.colls[0].name, me.colls[0].objs[0].name}}}
+				return ts
+			}
+			sa, sb := shapes(alice, bob), shapes(bob, alice)
+			step := func(h *hier, t target, b reqDesc, d string) string {
+				b.dh = d
+				return hx.L("hstep", hierSx(h), targetSx(t), reqSx(b))
+			}
+			n := 0
+			for i, ta := range sa {
+				for j, tb := range sb {
+					for bi, b := range bodies {
+						n++
+						if !thorough && n%3 != 0 {
+							continue
+						}
+						d := depths[(i+j+bi)%len(depths)]
+						steps := []string{step(alice, ta, b, d), step(bob, tb, b, d), step(alice, sa[(i+j)%len(sa)], b, d)}
+						for k := 1; k <= len(steps); k++ {
+							emit(hx.L(append([]string{"hseq", srv}, steps[:k]...)...))
+						}
+					}
+				}
+			}
+		}
+	}
+}
+
 func genPrincipal(emit func(string)) {
 	all := bodies("principal")
 	hsets := []string{
@@ -1646,7 +2007,10 @@ func main() {
 	}
 	emit := func(s string) { inputs <- s }
 	genDav(jobs)
+	genSpellings(emit, jobs)
+	genSizes(emit, jobs)
 	close(jobs)
+	genHseq(emit)
 	genNr(emit)
 	genHier(emit)
 	genPrincipal(emit)
